@@ -228,6 +228,11 @@ func (in *Interp) global(g *ssa.Global) *Cell {
 	}
 	c := in.alloc(t)
 	c.label = g.String()
+	// sentinel errors of packages whose initialisers are not executed: distinct
+	// opaque error objects named after their global
+	if g.Pkg != nil && !initAllowed(g.Pkg.Pkg.Path()) && types.Identical(t, types.Universe.Lookup("error").Type()) {
+		c.v = in.mkError(g.String())
+	}
 	in.epoch = save
 	if !in.initing {
 		// created lazily inside a path: make it persistent but reset by trail
@@ -499,7 +504,21 @@ func (in *Interp) noteLoop(fr *frame, b *ssa.BasicBlock) {
 	}
 	fr.loops[b]++
 	if fr.loops[b] > in.unwind {
-		panic(&pathEnd{reason: "unwind", detail: fmt.Sprintf("loop at %s iterated more than %d times on one path", in.fset.Position(b.Instrs[0].Pos()), in.unwind)})
+		detail := fmt.Sprintf("loop at %s iterated more than %d times on one path", in.fset.Position(b.Instrs[0].Pos()), in.unwind)
+		if os.Getenv("GOSYM_DEBUG_UNWIND") != "" {
+			for f := fr; f != nil; f = f.caller {
+				detail += " <- " + f.fn.String() + "@" + shortPos(in.fset, f.pos)
+			}
+		}
+		if in.sched != nil && os.Getenv("GOSYM_DEBUG_UNWIND") != "" {
+			n := len(in.sched.log)
+			lo := n - 14
+			if lo < 0 {
+				lo = 0
+			}
+			detail += " | schedule tail: " + strings.Join(in.sched.log[lo:], " | ")
+		}
+		panic(&pathEnd{reason: "unwind", detail: detail})
 	}
 }
 
